@@ -14,6 +14,8 @@ def run(chk):
     chk.mc('session', 'Session', 'MC_Session_q.cfg' if q else 'MC_Session.cfg', workers=8, timeout=3000)
     chk.mc('emloop', 'EMLoop', 'MC_EMLoop.cfg', workers=4)
     behaviours = core.tlc_simulate('Session', 'MC_Session_sim.cfg', num=12 if q else 150, depth=8, seed=chk.seed + 1)
+    # second stream restricted to the trainers with an iterative numeric solver (Bingham), default concentration limit
+    behaviours += core.tlc_simulate('Session', 'MC_Session_simb.cfg', num=16 if q else 100, depth=8, seed=chk.seed + 2)
     cases = []
     for b, beh in enumerate(behaviours):
         hist = beh[-1][1]['hist']
